@@ -1,0 +1,14 @@
+// Copyright 2024 The Go Authors. All rights reserved.
+// Use of this source code is governed by a BSD-style
+// license that can be found in the LICENSE file.
+
+//go:build verif
+
+package modfile
+
+// VerifParse exposes the syntax-only parser to the verification harness,
+// so that the lexer, parser and printer can be exercised on inputs that
+// the directive layer rejects. It is compiled only with the verif build tag.
+func VerifParse(file string, data []byte) (*FileSyntax, error) {
+	return parse(file, data)
+}
